@@ -19,6 +19,7 @@ type loopInfo struct {
 	blocks  map[*ssa.BasicBlock]bool
 	latches []*ssa.BasicBlock
 	ordinal int
+	mods    *modSet
 }
 
 type frame struct {
@@ -551,7 +552,7 @@ func (e *Engine) makeSlice(f *frame, st *State, x *ssa.MakeSlice, pos string) Va
 	z := c.BVLit64(0, 64)
 	e.oblige(st, "alloc", "", c.And(c.Op("bvsle", smt.Bool, z, ln), c.Op("bvsle", smt.Bool, ln, cp)), pos, "make: 0 <= len <= cap")
 	// memory is finite: a successful make returns less than 2^62 elements
-	e.assume(st, c.Op("bvsle", smt.Bool, cp, c.BVLit64(1<<62, 64)))
+	e.assume(st, c.Op("bvsle", smt.Bool, cp, c.BVLit64(sizeBound, 64)))
 	el := types.Unalias(x.Type()).Underlying().(*types.Slice).Elem()
 	ref := e.newRef(st)
 	for k, s := range e.comps(el) {
